@@ -1,178 +1,182 @@
 import PytypeModel.Pytd.PyiConvert
 
-/-! Generic list lemmas for C05: `dedupL`, `compatDropL`, `formSetL` commute with maps that are injective
-on the list and respect the plain-name members. -/
+/-! Generic list lemmas for C05: `dedupK`, `compatDrop`, `formSetK`. -/
 namespace PytypeModel.Pytd
 
 section
-set_option linter.unusedSectionVars false
-variable {α β : Type} [DecidableEq α] [DecidableEq β]
+variable {α : Type}
 
-theorem mem_dedupL {x : α} {l : List α} : x ∈ dedupL l ↔ x ∈ l := by
+theorem mem_dedupK {key : α → PyExpr} {x : α} {l : List α} (h : x ∈ dedupK key l) : x ∈ l := by
   induction l with
-  | nil => simp [dedupL]
+  | nil => simp [dedupK] at h
   | cons y ys ih =>
-    simp only [dedupL, List.mem_cons, List.mem_filter, ih]
-    by_cases h : x = y <;> simp [h]
+    simp only [dedupK, List.mem_cons, List.mem_filter] at h
+    rcases h with rfl | h
+    · simp
+    · exact List.mem_cons_of_mem _ (ih h.1)
 
-theorem dedupL_sublist (l : List α) : (dedupL l).Sublist l := by
+/-- every key of the list survives de-duplication -/
+theorem key_mem_dedupK {key : α → PyExpr} {x : α} {l : List α} (h : x ∈ l) :
+    key x ∈ (dedupK key l).map key := by
   induction l with
-  | nil => simp [dedupL]
+  | nil => simp at h
   | cons y ys ih =>
-    simp only [dedupL]
-    exact List.Sublist.cons_cons _ ((List.filter_sublist).trans ih)
+    simp only [dedupK, List.map_cons, List.mem_cons]
+    rcases List.mem_cons.1 h with rfl | h
+    · exact Or.inl rfl
+    · by_cases e : key x = key y
+      · exact Or.inl e
+      · right
+        obtain ⟨z, hz, hk⟩ := List.mem_map.1 (ih h)
+        exact List.mem_map.2 ⟨z, List.mem_filter.2 ⟨hz, by simpa [hk] using e⟩, hk⟩
 
-theorem nodup_dedupL (l : List α) : (dedupL l).Nodup := by
+theorem dedupK_map (f : α → PyExpr) (l : List α) : (dedupK f l).map f = dedupK id (l.map f) := by
   induction l with
-  | nil => simp [dedupL]
+  | nil => rfl
+  | cons x xs ih =>
+    simp only [dedupK, List.map_cons, id]
+    congr 1
+    rw [← ih, List.filter_map]
+    rfl
+
+theorem nodup_dedupK_id (l : List PyExpr) : (dedupK id l).Nodup := by
+  induction l with
+  | nil => simp [dedupK]
   | cons y ys ih =>
-    simp only [dedupL, List.nodup_cons]
+    simp only [dedupK, List.nodup_cons, id]
     exact ⟨by simp, ih.sublist List.filter_sublist⟩
 
-theorem dedupL_of_nodup {l : List α} (h : l.Nodup) : dedupL l = l := by
+theorem dedupK_id_of_nodup {l : List PyExpr} (h : l.Nodup) : dedupK id l = l := by
   induction l with
   | nil => rfl
   | cons y ys ih =>
     rw [List.nodup_cons] at h
-    simp only [dedupL, ih h.2]
+    simp only [dedupK, ih h.2, id]
     congr 1
     rw [List.filter_eq_self]
     intro a ha
     have : a ≠ y := fun e => h.1 (e ▸ ha)
     simpa using this
 
-/-- `f` is injective on the elements of `l` -/
-def InjOn (f : α → β) (l : List α) : Prop := ∀ a ∈ l, ∀ b ∈ l, f a = f b → a = b
-
-theorem InjOn.tail {f : α → β} {x : α} {l : List α} (h : InjOn f (x :: l)) : InjOn f l :=
-  fun a ha b hb e => h a (List.mem_cons_of_mem _ ha) b (List.mem_cons_of_mem _ hb) e
-
-theorem InjOn.sublist {f : α → β} {l l' : List α} (h : InjOn f l) (hs : l'.Sublist l) : InjOn f l' :=
-  fun a ha b hb e => h a (hs.subset ha) b (hs.subset hb) e
-
-theorem map_filter_ne {f : α → β} {x : α} {l : List α} (h : InjOn f (x :: l)) :
-    (l.filter (· ≠ x)).map f = (l.map f).filter (· ≠ f x) := by
-  rw [List.filter_map]
-  congr 1
-  apply List.filter_congr
-  intro a ha
-  simp only [Function.comp]
-  by_cases e : a = x
-  · simp [e]
-  · have : f a ≠ f x := fun e' => e (h a (List.mem_cons_of_mem _ ha) x (by simp) e')
-    simp [e, this]
-
-theorem dedupL_map {f : α → β} {l : List α} (h : InjOn f l) : dedupL (l.map f) = (dedupL l).map f := by
-  induction l with
-  | nil => rfl
-  | cons x xs ih =>
-    simp only [List.map_cons, dedupL]
-    rw [ih h.tail]
-    congr 1
-    have hx : InjOn f (x :: dedupL xs) := fun a ha b hb e =>
-      h a (by
-        rcases List.mem_cons.1 ha with rfl | ha
-        · simp
-        · exact List.mem_cons_of_mem _ (mem_dedupL.1 ha)) b (by
-        rcases List.mem_cons.1 hb with rfl | hb
-        · simp
-        · exact List.mem_cons_of_mem _ (mem_dedupL.1 hb)) e
-    rw [map_filter_ne hx]
-
-/-- `f` maps the plain-name member `nm₁ c` to `nm₂ c`, and nothing else of `l` to it -/
-def NameCompat (f : α → β) (nm₁ : String → α) (nm₂ : String → β) (l : List α) : Prop :=
-  ∀ a ∈ l, ∀ c : String, f a = nm₂ c ↔ a = nm₁ c
-
-theorem contains_map_name {f : α → β} {nm₁ : String → α} {nm₂ : String → β} {l : List α}
-    (h : NameCompat f nm₁ nm₂ l) (c : String) : (l.map f).contains (nm₂ c) = l.contains (nm₁ c) := by
-  rw [Bool.eq_iff_iff]
-  simp only [List.contains_iff_mem, List.mem_map]
-  constructor
-  · rintro ⟨a, ha, e⟩
-    rw [(h a ha c).1 e] at ha
-    exact ha
-  · intro hm
-    exact ⟨nm₁ c, hm, (h _ hm c).2 rfl⟩
-
-/-- the dropped members: all of the form `nm c` with `nm c ∈ l` -/
-theorem compatDropL_map {f : α → β} {nm₁ : String → α} {nm₂ : String → β} {l : List α}
-    (h : NameCompat f nm₁ nm₂ l) (items : List (String × String)) (d : List String)
-    (hd : ∀ c ∈ d, nm₁ c ∈ l) :
-    ∃ d' : List String, (∀ c ∈ d', nm₁ c ∈ l) ∧ compatDropL nm₁ l items (d.map nm₁) = d'.map nm₁ ∧
-      compatDropL nm₂ (l.map f) items (d.map nm₂) = d'.map nm₂ := by
-  induction items generalizing d with
-  | nil => exact ⟨d, hd, rfl, rfl⟩
-  | cons cn rest ih =>
-    obtain ⟨c, n⟩ := cn
-    simp only [compatDropL]
-    -- membership of `nm x` in the dropped lists agrees whenever `nm₁ x ∈ l`
-    have key : ∀ x : String, nm₁ x ∈ l →
-        ((d.map nm₂).contains (nm₂ x) = (d.map nm₁).contains (nm₁ x)) := by
-      intro x hx
-      rw [Bool.eq_iff_iff]
-      simp only [List.contains_iff_mem, List.mem_map]
-      constructor
-      · rintro ⟨y, hy, e⟩
-        refine ⟨y, hy, ?_⟩
-        have h1 := (h _ (hd y hy) x).1 (by rw [← e]; exact (h _ (hd y hy) y).2 rfl)
-        exact h1
-      · rintro ⟨y, hy, e⟩
-        refine ⟨y, hy, ?_⟩
-        have : f (nm₁ y) = nm₂ y := (h _ (hd y hy) y).2 rfl
-        have h2 : f (nm₁ x) = nm₂ x := (h _ hx x).2 rfl
-        rw [← this, ← h2, e]
-    have hasEq : ∀ x : String,
-        ((l.map f).contains (nm₂ x) && !(d.map nm₂).contains (nm₂ x)) =
-        (l.contains (nm₁ x) && !(d.map nm₁).contains (nm₁ x)) := by
-      intro x
-      rw [contains_map_name h x]
-      by_cases hx : nm₁ x ∈ l
-      · rw [key x hx]
-      · have : l.contains (nm₁ x) = false := by simpa using hx
-        rw [this]; simp
-    simp only [hasEq c, hasEq n]
-    by_cases hc : ((l.contains (nm₁ c) && !(d.map nm₁).contains (nm₁ c)) &&
-        (l.contains (nm₁ n) && !(d.map nm₁).contains (nm₁ n))) = true
-    · rw [if_pos hc, if_pos hc]
-      have hcl : nm₁ c ∈ l := by
-        simp only [Bool.and_eq_true, List.contains_iff_mem] at hc
-        exact hc.1.1
-      have := ih (c :: d) (by
-        intro y hy
-        rcases List.mem_cons.1 hy with rfl | hy
-        · exact hcl
-        · exact hd y hy)
-      simpa using this
-    · rw [if_neg hc, if_neg hc]
-      exact ih d hd
-
-theorem formSetL_map {f : α → β} {nm₁ : String → α} {nm₂ : String → β} {l : List α} (ip : Bool)
-    (hinj : InjOn f l) (h : NameCompat f nm₁ nm₂ l) :
-    formSetL nm₂ ip (l.map f) = (formSetL nm₁ ip l).map f := by
-  unfold formSetL
-  rw [dedupL_map hinj]
+theorem formSetK_map (f : α → PyExpr) (ip : Bool) (l : List α) :
+    (formSetK f ip l).map f = formSetK id ip (l.map f) := by
+  unfold formSetK
+  simp only [List.map_id, id]
+  rw [← dedupK_map]
   cases ip with
   | false => simp
   | true =>
     simp only [if_true]
-    have hsub : (dedupL l).Sublist l := dedupL_sublist l
-    have h' : NameCompat f nm₁ nm₂ (dedupL l) := fun a ha c => h a (hsub.subset ha) c
-    obtain ⟨d', hd', e1, e2⟩ := compatDropL_map h' compatItems [] (by simp)
-    simp only [List.map_nil] at e1 e2
-    rw [e1, e2, List.filter_map]
-    congr 1
-    apply List.filter_congr
-    intro a ha
-    simp only [Function.comp]
-    congr 1
-    rw [Bool.eq_iff_iff]
-    simp only [List.contains_iff_mem, List.mem_map]
-    constructor
-    · rintro ⟨c, hc, e⟩
-      exact ⟨c, hc, ((h' a ha c).1 e.symm).symm⟩
-    · rintro ⟨c, hc, e⟩
-      exact ⟨c, hc, by rw [← e]; exact ((h' _ (hd' c hc) c).2 rfl).symm⟩
+    rw [List.filter_map]
+    rfl
+
+theorem mem_formSetK {key : α → PyExpr} {ip : Bool} {l : List α} {x : α} (h : x ∈ formSetK key ip l) :
+    x ∈ l := by
+  unfold formSetK at h
+  simp only [] at h
+  split at h
+  · exact mem_dedupK (List.mem_filter.1 h).1
+  · exact mem_dedupK h
 
 end
+
+/-! ### the compat deletion -/
+
+/-- everything deleted is a plain name taken from the table (or was deleted before) -/
+theorem compatDrop_mem (es : List PyExpr) (items : List (String × String)) (d : List PyExpr) {e : PyExpr}
+    (h : e ∈ compatDrop es items d) : e ∈ d ∨ ∃ cn ∈ items, e = .name cn.1 ∧ PyExpr.name cn.1 ∈ es := by
+  induction items generalizing d with
+  | nil => exact Or.inl h
+  | cons cn rest ih =>
+    obtain ⟨c, n⟩ := cn
+    simp only [compatDrop] at h
+    rcases ih _ h with h1 | ⟨cn', hm, he⟩
+    · split at h1
+      · next hc =>
+        rcases List.mem_cons.1 h1 with rfl | h1
+        · right
+          refine ⟨(c, n), by simp, rfl, ?_⟩
+          simp only [Bool.and_eq_true, List.contains_iff_mem] at hc
+          exact hc.1.1
+        · exact Or.inl h1
+      · exact Or.inl h1
+    · exact Or.inr ⟨cn', List.mem_cons_of_mem _ hm, he⟩
+
+theorem compatDrop_mono (es : List PyExpr) (items : List (String × String)) (d : List PyExpr) {e : PyExpr}
+    (h : e ∈ d) : e ∈ compatDrop es items d := by
+  induction items generalizing d with
+  | nil => exact h
+  | cons cn rest ih =>
+    obtain ⟨c, n⟩ := cn
+    simp only [compatDrop]
+    apply ih
+    split
+    · exact List.mem_cons_of_mem _ h
+    · exact h
+
+/-- after the pass no pair of the table is present with both members -/
+theorem compatDrop_inv (es : List PyExpr) (items : List (String × String)) (d : List PyExpr) :
+    ∀ cn ∈ items, ¬ ((PyExpr.name cn.1 ∈ es ∧ PyExpr.name cn.1 ∉ compatDrop es items d) ∧
+      (PyExpr.name cn.2 ∈ es ∧ PyExpr.name cn.2 ∉ compatDrop es items d)) := by
+  induction items generalizing d with
+  | nil => intro cn h; simp at h
+  | cons cn0 rest ih =>
+    obtain ⟨c, n⟩ := cn0
+    intro cn hm
+    simp only [compatDrop]
+    rcases List.mem_cons.1 hm with rfl | hm
+    · rintro ⟨⟨hc1, hc2⟩, ⟨hn1, hn2⟩⟩
+      by_cases hcond : ((es.contains (.name c) && !d.contains (.name c)) &&
+          (es.contains (.name n) && !d.contains (.name n))) = true
+      · rw [if_pos hcond] at hc2
+        exact hc2 (compatDrop_mono _ _ _ (by simp))
+      · rw [if_neg hcond] at hc2 hn2
+        apply hcond
+        have hcd : PyExpr.name c ∉ d := fun h => hc2 (compatDrop_mono _ _ _ h)
+        have hnd : PyExpr.name n ∉ d := fun h => hn2 (compatDrop_mono _ _ _ h)
+        simp [hc1, hn1, hcd, hnd]
+    · exact ih _ cn hm
+
+/-- a list in which no pair of the table is present loses nothing -/
+theorem compatDrop_nil_of_stable (es : List PyExpr) (items : List (String × String))
+    (h : ∀ cn ∈ items, ¬ (PyExpr.name cn.1 ∈ es ∧ PyExpr.name cn.2 ∈ es)) :
+    compatDrop es items [] = [] := by
+  induction items with
+  | nil => rfl
+  | cons cn rest ih =>
+    obtain ⟨c, n⟩ := cn
+    simp only [compatDrop]
+    have hc := h (c, n) (by simp)
+    have : ((es.contains (.name c) && !([] : List PyExpr).contains (.name c)) &&
+        (es.contains (.name n) && !([] : List PyExpr).contains (.name n))) = false := by
+      rw [Bool.eq_false_iff]
+      intro ht
+      simp only [Bool.and_eq_true, List.contains_iff_mem] at ht
+      exact hc ⟨ht.1.1, ht.2.1⟩
+    rw [this]
+    simp only [Bool.false_eq_true, if_false]
+    exact ih (fun cn hm => h cn (List.mem_cons_of_mem _ hm))
+
+/-- `formSetK id` on a list that has the same members as an already formed one changes nothing -/
+theorem formSetK_id_stable (ip : Bool) (es0 p : List PyExpr) (hp : p.Nodup)
+    (hmem : ∀ e, e ∈ p ↔ e ∈ formSetK id ip es0) : formSetK id ip p = p := by
+  unfold formSetK
+  simp only [List.map_id, id]
+  rw [dedupK_id_of_nodup hp]
+  cases ip with
+  | false => simp
+  | true =>
+    simp only [if_true]
+    have hst : compatDrop p compatItems [] = [] := by
+      apply compatDrop_nil_of_stable
+      intro cn hcn hboth
+      have h1 := (hmem _).1 hboth.1
+      have h2 := (hmem _).1 hboth.2
+      unfold formSetK at h1 h2
+      simp only [List.map_id, id, if_true, List.mem_filter, Bool.not_eq_true',
+        Bool.eq_false_iff, ne_eq, List.contains_iff_mem] at h1 h2
+      exact compatDrop_inv (dedupK id es0) compatItems [] cn hcn ⟨⟨h1.1, h1.2⟩, ⟨h2.1, h2.2⟩⟩
+    rw [hst]
+    simp
 
 end PytypeModel.Pytd
